@@ -1,7 +1,7 @@
 (* Cli/EscapeProofs.v — lemmas about the command-line model Cli/Escape.v. *)
 From Ink.Data Require Import Types.
 From Ink.Json Require Import JsonStd JsonStdProofs.
-From Ink.Cli Require Import Escape.
+From Ink.Cli Require Import EscapeCore.
 From Coq Require Import Lia.
 
 (* ---------- escape_json_string ---------- *)
